@@ -23,6 +23,7 @@ def is_abs(s):
 
 def run(ctx):
     ctx.build()
+    ctx.apalache("LayoutLemma", "Lemma")      # padding is invariant under shifts by multiples of the alignment; slot wrap-around (all addresses)
     quick = ctx.tier == "quick"
     cases = progs.gen(ctx, 60 if quick else 800, length=14 if quick else 20, nl=3, bits=16)
     R = flow.Runner(ctx)
